@@ -36,7 +36,11 @@ func NewDocument() *Document {
 
 // AddPage appends a page to the document and assigns its page number (1-indexed).
 func (d *Document) AddPage(page *Page) {
-	page.Number = len(d.Pages) + 1
+	// Callers that extract a selection of pages stamp the source page number
+	// before adding the page; only a page without a number gets its position.
+	if page.Number == 0 {
+		page.Number = len(d.Pages) + 1
+	}
 	d.Pages = append(d.Pages, page)
 }
 
